@@ -33,12 +33,15 @@ def run(ctx):
                                                               "harness", "internal", "layer2", "zz_verif_spk.go")}
 
     def hist(nh, seed, tag):
-        recs, hok, log = ctx.go_harness("speaker", ["zz_verif_bgp_test.go", "zz_verif_spk_test.go"], "TestVerifSpk$", n=nh, seed=seed,
-                                        tag=tag, extra_overlay=overlay)
+        # TestVerifSpkStack: the same oracle behind the REAL Service (with endpoint slices, single-service and reprocess-all
+        # paths), Node and Config reconcilers on a fake API server: same-named Services in two namespaces, advertisements
+        # selecting nodes by labels that change
+        recs, hok, log = ctx.go_harness("speaker", ["zz_verif_bgp_test.go", "zz_verif_spk_test.go", "zz_verif_stack_test.go"], "TestVerifSpk(Stack)?$",
+                                        n=nh, seed=seed, tag=tag, extra_overlay=overlay)
         for r in recs:
             if r.get("t") == "fail" and r.get("sig") in HIST_SIGS:
                 ctx.oracle_fail(r["sig"], r.get("what", ""), r.get("replay"))
-            elif r.get("t") == "stat" and r["k"].startswith(("elig_", "ev_node", "histories")):
+            elif r.get("t") == "stat" and r["k"].startswith(("elig_", "ev_node", "histories", "stack_")):
                 state["stats"]["hist:" + r["k"]] = state["stats"].get("hist:" + r["k"], 0) + r["v"]
         if not hok and not any("does not build" in c for c in ctx.corr_broken):
             ctx.corr_broken.append("harness TestVerifSpk (history part of C10) failed: " + log[-1500:])
@@ -56,7 +59,8 @@ def run(ctx):
     if cases:
         for k in ("announce", "reason:RNoLocal", "reason:RNoEndpoints", "reason:RExcluded", "reason:RNetUnavail",
                   "reason:RNotOwner", "conflicting_conditions_for_one_address", "multi_homed_address", "f18_hits", "route_checks",
-                  "hist:elig_history_checks", "hist:elig_services_expected_over_bgp", "hist:ev_node_flag_change"):
+                  "hist:elig_history_checks", "hist:elig_services_expected_over_bgp", "hist:ev_node_flag_change",
+                  "hist:stack_histories", "hist:stack_steps_with_same_named_services", "hist:stack_services_expected_over_bgp"):
             if st.get(k, 0) == 0:
                 raise vlib.Broken("generator degenerate: counter %r is zero: %r" % (k, st))
 
